@@ -238,7 +238,7 @@ fn c06_begin_delete() {
 /// Thorough tier: mutator sequences of length 5.
 #[kani::proof]
 #[kani::unwind(7)]
-fn c06_terminal_is_absorbing_5() {
+fn c06_seq5_terminal_is_absorbing() {
     let (l, ro, dro): (u8, bool, bool) = (kani::any(), kani::any(), kani::any());
     kani::assume(l >= LIFECYCLE_CLOSING && l <= LIFECYCLE_POISONED);
     let v = view(l, ro, dro);
